@@ -27,7 +27,7 @@ CLAIMS = {
  "C14": ("Contracts on Options::default() (the documented defaults: complete) and on the private serde visitor RegexVisitor (a pattern is accepted exactly when regex::Regex::new accepts it, so an invalid pattern is rejected while the configuration is read). serde's derive semantics (absent = default, unknown keys ignored) and option isolation are not within reach.", "serde derive is an external dependency (assumed); regex::Regex::new is the stand-in's model (callee contract assumed)."),
  "C15": ("Contracts on get_pragma (precedence comment > option > createVNode import, createVNode imported only when needed: complete) and search_jsx_pragma's comment rule against the spec taken from the statement on 11 comment texts (bounded).",
          "Same stand-in / stub assumptions; comments come from a global-backed Comments stand-in; which comments are scanned (traversal) is not covered."),
- "C17": ("Contract on the real (private) infer_runtime_type for the atom table of the statement: all keyword kinds, literal kinds and 20 built-in names. Function/array/tuple/parenthesis/union/NonNullable, indexed access and the type-list emission were built as harnesses but are out of reach (no verdict at 24 GB / 30 min) and are NOT claimed.",
+ "C17": ("Contract on the real (private) infer_runtime_type for the atom table of the statement: all keyword kinds, literal kinds, 20 built-in names, and array / tuple / function / parenthesised types (one level). Union order, NonNullable, indexed access and the type-list emission were built as harnesses but are out of reach (no verdict at 16-24 GB / 15-30 min) and are NOT claimed.",
          "Same stand-in / stub assumptions; alias / interface / indexed-access recursion not covered."),
  "C20": ("Contracts on is_define_component_call (5 callee shapes x recorded / not), the import recording of visit_mut_import_decl (8 import shapes) and inject_define_component_option for a missing options argument and a spread argument list. The options-LITERAL shapes (user keys win, spreads win) were built as harnesses but are out of reach (no verdict at 40 GB / 40 min) and are NOT claimed.",
          "Same stand-in / stub assumptions; name inference on declarators not covered."),
